@@ -3,6 +3,7 @@ package props
 import (
 	"context"
 	"fmt"
+	"os"
 	"strings"
 	"testing/synctest"
 	"time"
@@ -45,13 +46,19 @@ func runC16(c *core.Ctx) {
 	// scheduling decision of the tape
 	var fd *core.FDriver
 	if core.FAvailable() {
-		sch := core.NewFScheduler()
+		fd = core.NewFDriver(t)
+		sch := fd.S
 		sch.Install()
 		defer sch.Uninstall()
 		defer sch.Off()
-		fd = &core.FDriver{S: sch, T: t, Preempt: []int{4, 8, 20}[t.Draw(3)]}
+		if os.Getenv("VERIF_FTRACE") == "1" {
+			fd.Trace = func(site string, n int) { c.Note("    resume %s (of %d runnable)", site, n) }
+		}
 		parkRate = 0
-		defer func() { c.SetInterleaving(sch.Hash(), sch.Steps()) }()
+		defer func() {
+			c.SetInterleaving(sch.Hash(), sch.Steps())
+			c.FaultN("schedule:goroutine-stalled", fd.Holds)
+		}()
 	}
 	early := 0
 	// settle lets the system run: to quiescence (Engine G), or under the tape's scheduler until idle or
@@ -357,7 +364,20 @@ func runC16(c *core.Ctx) {
 				d = delay
 			}
 			c.Event("advance %v", d)
-			time.Sleep(d)
+			if fd != nil {
+				for rem := d; rem > 0; {
+					early = 0
+					settle() // Engine F explores interleavings at one instant; time passes in slices, idle in between
+					chunk := 250 * time.Millisecond
+					if rem < chunk {
+						chunk = rem
+					}
+					time.Sleep(chunk)
+					rem -= chunk
+				}
+			} else {
+				time.Sleep(d)
+			}
 			c.AddSimTime(int64(d))
 			return
 		}
@@ -379,6 +399,9 @@ func runC16(c *core.Ctx) {
 	}
 	// fault free epilogue: honest sources, until every request has its terminal signal
 	planAnswers = map[int]string{}
+	if fd != nil {
+		fd.ReleaseAll()
+	}
 	for i := 0; i < 4000; i++ {
 		act(false)
 		pending := nextBlock < len(blocks) && !interrupted
@@ -497,8 +520,8 @@ func init() {
 		Real: blockReal, Stub: blockStub,
 		Assumptions: []string{"interleavings are controlled at the granularity of source/requester/timer actions; between two quiescent points woken goroutines run in the Go runtime's order and a select with several ready cases is resolved by the runtime (not replayable from the tape); the oracles are order independent",
 			"a requester stops listening when shutdown is signalled, as NodeManager.synchronizeBlocks does"},
-		FaultKinds: []string{"source:not-available", "source:wrong-block", "source:drop-before-start", "source:stream-cut", "source:drop-mid-block", "request:abort", "shutdown", "source:drop-during-shutdown", "source:drop-after-cancel", "stalled-goroutine-released"},
-		ProbeNames: []string{"terminal:completed", "terminal:value:Block Aborted", "abort-acknowledged", "abort-and-shutdown-same-instant", "two-actions-same-instant", "handler-start-and-shutdown-same-instant", "run-with-stalled-goroutines"},
+		FaultKinds:   []string{"source:not-available", "source:wrong-block", "source:drop-before-start", "source:stream-cut", "source:drop-mid-block", "request:abort", "shutdown", "source:drop-during-shutdown", "source:drop-after-cancel", "stalled-goroutine-released"},
+		ProbeNames:   []string{"terminal:completed", "terminal:value:Block Aborted", "abort-acknowledged", "abort-and-shutdown-same-instant", "two-actions-same-instant", "handler-start-and-shutdown-same-instant", "run-with-stalled-goroutines"},
 		Run:          runC16,
 		QuickSeconds: 20, ThoroughSeconds: 700, MinRuns: 300, BatchSize: 25, RunTimeoutSeconds: 300,
 		FQuickSeconds: 15, FThoroughSeconds: 500,
